@@ -73,7 +73,9 @@ int main(void)
 #elif OP == 1
   ok = vf_sb_send_r(&the_sess, MSGP(0), custom, noinc) & 1;
 #else
-  ok = vf_sb_send_batch(&the_sess, MSGP(0), MSGP(1 % NMSG), MSGP(2 % NMSG), j, destroy);
+  for (int i = 0; i < NMSG; i++) the_arr[i] = MSGP(i);
+  vf_sb_vec_set(&the_vec, the_arr, j, NMSG);
+  ok = vf_sb_send_batch(&the_sess, &the_vec, destroy);
 #endif
   VF_ASSERT(!__vf_exc_pending, "C16: send does not throw"); __vf_exc_pending = 0;
   VF_ASSERT(op == 2 ? ok == j : ok == 1, "C16: every message of the operation is reported as sent");
